@@ -7,9 +7,11 @@ package c19
 
 import (
 	"context"
+	"net/url"
 	"sync"
 
 	"github.com/ory/fosite"
+	"github.com/ory/fosite/compose"
 	"github.com/ory/fosite/zz_verif_h/world"
 	"github.com/ory/fosite/zz_verif_h/zz"
 )
@@ -25,6 +27,7 @@ func tweak(variant int) func(cfg *fosite.Config) {
 			cfg.AudienceMatchingStrategy = nil
 			cfg.JWKSFetcherStrategy = nil
 		}
+		cfg.DeviceVerificationURL = "https://as.example/device"
 	}
 }
 
@@ -48,6 +51,23 @@ func flows(w *world.World, tag string) {
 		panic("revoke failed " + tag)
 	}
 	w.Password("c2", []string{"photos"})
+	// a pushed authorization request and a device authorization: they draw random bytes and mint codes through
+	// other strategy objects than the core token strategy
+	par, err := w.Provider.NewPushedAuthorizeRequest(w.Ctx, world.Post(url.Values{"client_id": {"c1"}, "client_secret": {world.Secret1},
+		"response_type": {"code"}, "redirect_uri": {"https://c1.example/cb"}, "scope": {"photos"}, "state": {"state-0123456789"}}))
+	if err != nil {
+		panic("push failed " + tag)
+	}
+	if _, err := w.Provider.NewPushedAuthorizeResponse(w.Ctx, par, world.NewSession("peter")); err != nil {
+		panic("push response failed " + tag)
+	}
+	dr, err := w.Provider.NewDeviceRequest(w.Ctx, world.Post(url.Values{"client_id": {"c1"}, "client_secret": {world.Secret1}, "scope": {"photos"}}))
+	if err != nil {
+		panic("device request failed " + tag)
+	}
+	if _, err := w.Provider.NewDeviceResponse(w.Ctx, dr, world.NewSession("")); err != nil {
+		panic("device response failed " + tag)
+	}
 	// what client authentication by private_key_jwt with a jwks_uri asks the configuration for (the fetch
 	// itself is the environment's business)
 	if w.Cfg.GetJWKSFetcherStrategy(w.Ctx) == nil {
@@ -78,7 +98,8 @@ func watch(w *world.World) {
 // ZZ_C19_shared_race: configured (variant 0) and default-constructed strategies (variant 1).
 func ZZ_C19_shared_race() {
 	variant := zz.Choice("config", 2)
-	w := world.New(world.Options{Tweak: tweak(variant)})
+	w := world.New(world.Options{Tweak: tweak(variant),
+		Extra: []compose.Factory{compose.RFC8628DeviceFactory, compose.RFC8628DeviceAuthorizationTokenFactory, compose.PushedAuthorizeHandlerFactory}})
 	label := []string{"no-unsynchronised-write-to-shared-provider-state:configured", "no-unsynchronised-write-to-shared-provider-state:defaults"}[variant]
 	if !zz.Symbolic() {
 		var wg sync.WaitGroup
